@@ -150,6 +150,11 @@ struct Array {
 
     void operator+=(Type_T &&item) {
         if (Size() == Capacity()) {
+#ifdef QENTEM_VERIF_SIM
+            if (qentem_verif_exact_fit() != 0) {
+                resize(Capacity() + SizeT{1});
+            } else
+#endif
             resize((Capacity() | (Capacity() == 0)) * SizeT{2});
         }
 
@@ -159,6 +164,11 @@ struct Array {
 
     inline void operator+=(const Type_T &item) {
         if (Size() == Capacity()) {
+#ifdef QENTEM_VERIF_SIM
+            if (qentem_verif_exact_fit() != 0) {
+                resize(Capacity() + SizeT{1});
+            } else
+#endif
             resize((Capacity() | (Capacity() == 0)) * SizeT{2});
         }
 
